@@ -10,7 +10,7 @@ Encoding (inside one percent-encoded argument): records separated by "\n", field
 import PoetryVerif.Protocol
 import PoetryVerif.Model.Select
 
-namespace Poetry.Drv
+namespace Poetry.Drv.SelectH
 open Poetry Poetry.Proto Poetry.Select
 
 def us : String := "\x1f"
@@ -103,4 +103,7 @@ def handleSelect (op : String) (args : List String) : Option String :=
       | .ok xs => "ok\t" ++ encode ("\n".intercalate ((xs.mergeSort (fun a b => a ≤ b)).eraseDups))
   | _, _ => none
 
-end Poetry.Drv
+end Poetry.Drv.SelectH
+
+/-- registered in Driver.lean -/
+def Poetry.Drv.handleSelect := Poetry.Drv.SelectH.handleSelect
